@@ -174,7 +174,30 @@ def apply_transform(kind, plan, out_node):
             plan.add_dependency(x, n)
     if kind in ("wrap-output", "both") and out_node is not None:
         out_node = plan.call(_wrap_output, out_node)
+    if kind == "relabel":
+        # replace one root user call by an equivalent call under another function name (what instrumenting /
+        # wrapping transformations do): the replaced call is no longer part of the run
+        roots = [n for n in plan.graph.nodes() if type(n) is Call and getattr(n.fn, "_nid", None) is not None
+                 and not list(plan.graph.predecessors(n))]
+        if roots:
+            old = roots[0]
+            inner = old.fn
+
+            def relabelled(*a, **k):
+                return inner(*a, **k)
+
+            new = plan.call(relabelled)
+            new.scope = old.scope
+            for _, succ, key in list(plan.graph.out_edges(old, keys=True)):
+                plan.graph.add_edge(new, succ, key)
+            plan.graph.remove_node(old)
+            RELABELLED.append(inner._nid)
+            if out_node is old:
+                out_node = new
     return plan, out_node
+
+
+RELABELLED = []
 
 
 def make_retry(spec, sim):
@@ -386,6 +409,9 @@ def _run_op(hist, op, idx, *, tape=None, uberjob_kwargs=None, client_wrap=None, 
         kwargs["progress"] = None
     else:
         kwargs["progress"] = prog  # a Progress object supplied by the check
+
+    del RELABELLED[:]
+    rec.extra["relabelled"] = RELABELLED
 
     def transform_physical(plan, out_node):
         if cfg.get("transform"):
